@@ -201,7 +201,7 @@ fn same_value(left: &ast::Value, right: &ast::Value) -> bool {
         (ast::Value::Float(left), ast::Value::Float(right)) => left == right,
         (ast::Value::Int(left), ast::Value::Int(right)) => left == right,
         (ast::Value::Boolean(left), ast::Value::Boolean(right)) => left == right,
-        (ast::Value::List(left), ast::Value::List(right)) => left
+        (ast::Value::List(left), ast::Value::List(right)) if left.len() == right.len() => left
             .iter()
             .zip(right.iter())
             .all(|(left, right)| same_value(left, right)),
